@@ -545,6 +545,60 @@ def _unwalrus(fn: ast.AST) -> None:
     ast.fix_missing_locations(fn)
 
 
+def _scope_comprehension_vars(fn: ast.AST) -> None:
+    """A comprehension has a scope of its own: its targets are not the function's locals of the same name (only the first
+    iterable is evaluated outside).  Give a comprehension variable that shares its name with a parameter or with a name
+    the function binds itself a name of its own (in place, on a working copy), so that `seq = sequences[var]` in a loop and
+    `[len(seq) for seq in ..]` somewhere else are two variables for the passes that count the bindings of a name."""
+    comp_t = (ast.ListComp, ast.SetComp, ast.GeneratorExp, ast.DictComp)
+
+    def inner_parts(c: ast.AST) -> List[ast.AST]:
+        parts: List[ast.AST] = [c.key, c.value] if isinstance(c, ast.DictComp) else [c.elt]
+        for gi, g in enumerate(c.generators):
+            parts.append(g.target)
+            parts += list(g.ifs)
+            if gi:
+                parts.append(g.iter)
+        return parts
+
+    comps = [n for n in ast.walk(fn) if isinstance(n, comp_t)]
+    if not comps:
+        return
+    comp_targets = {id(x) for c in comps for g in c.generators for x in ast.walk(g.target)}
+    level: Set[str] = set()
+    taken: Set[str] = set()
+    for x in ast.walk(fn):
+        if isinstance(x, ast.Name):
+            taken.add(x.id)
+            if not isinstance(x.ctx, ast.Load) and id(x) not in comp_targets:
+                level.add(x.id)  # a plain binding, or the target of an assignment expression (binds outside the comprehension)
+        elif isinstance(x, ast.arg):
+            taken.add(x.arg)
+            level.add(x.arg)
+        elif isinstance(x, ast.ExceptHandler) and x.name:
+            level.add(x.name)
+        elif isinstance(x, (ast.Global, ast.Nonlocal)):
+            level |= set(x.names)
+    n_new = 0
+    for c in reversed(comps):  # ast.walk is breadth-first: inner comprehensions come first here
+        bound = {x.id for g in c.generators for x in ast.walk(g.target) if isinstance(x, ast.Name) and isinstance(x.ctx, ast.Store)}
+        parts = inner_parts(c)
+        for t in sorted(bound & level):
+            inside = [x for p in parts for x in ast.walk(p)]
+            if any(isinstance(x, ast.arg) and x.arg == t for x in inside):
+                continue  # a lambda parameter of the same name: left alone
+            if any(isinstance(x, comp_t) and any(isinstance(y, ast.Name) and y.id == t and isinstance(y.ctx, ast.Store) for g in x.generators for y in ast.walk(g.target)) for x in inside):
+                continue  # an inner comprehension that still binds the name (it was left alone itself)
+            n_new += 1
+            new = f"{t}__c{n_new}"
+            while new in taken:
+                new += "_"
+            taken.add(new)
+            for x in inside:
+                if isinstance(x, ast.Name) and x.id == t:
+                    x.id = new
+
+
 def _sink_block_temps(fn: ast.AST) -> None:
     """`t = E; .. t .. t ..` (in one block, t bound nowhere else and read nowhere else, E pure, nothing E reads re-bound or
     modified in the statements that follow) is `.. E .. E ..` (in place, on a working copy).  The normaliser's copy
@@ -758,11 +812,18 @@ class Flow:
     documented expression, so locals, temporaries, merged / split assignments and statement order of
     independent statements do not matter."""
 
-    def __init__(self, nf: ast.AST, post=None):
+    def __init__(self, nf: ast.AST, post=None, loops: bool = False):
         work = clone(nf)
         _while_to_for(work)
         _unwalrus(work)
+        _scope_comprehension_vars(work)
         _sink_block_temps(work)
+        if loops:
+            # the accumulate loops the normaliser left alone because of a named sub-expression in their body
+            # (`for v in names: seq = sequences[v]; out.append(seq)`) are one-statement loops now ..
+            from ..normal import _ifexp, _loops
+            _ifexp(work)  # .. and the if / else of one store whose branches were several statements long is a conditional expression
+            _loops(work)
         self.fn = _canon_records(work)
         _unloop_yield_from(self.fn)
         _sort_keywords(self.fn)
@@ -3327,7 +3388,7 @@ def run(repo: Repo, R: Report) -> None:
     md = "mode" if "mode" in all_p else None
     if bc is None or md is None:
         raise AnalysisError(f"{IT}: mode / broadcast parameters not found (they are passed by keyword)")
-    F1 = Flow(nfunc(repo, SWEEP, IT, copyprop="all", loops=True))
+    F1 = Flow(nfunc(repo, SWEEP, IT, copyprop="all", loops=True), loops=True)
     g1 = F1.g
 
     def a_bypos(e: ast.AST) -> Optional[bool]:
